@@ -24,6 +24,9 @@ CHECKS = {
  "C05": ("exploration", "runtime monitoring: in-process application of the tree's literal obfuscator to generated programs + execution of the result; end-to-end differential through garble -literals",
   "Generated import-free programs with ~120 literals each (all forms, 16 positions, boundary lengths, 5 byte classes) are rewritten by the tree's literals.Obfuscate with each of the 5 obfuscators forced and with random choice over several PRNG seeds, compiled and run; every printed value is compared with the source bytes. The same programs plus -ldflags=-X targets go through garble -literals and are compared with the regular build.",
   "Literal contexts come from a fixed grammar; a hook reports which literals were actually rewritten and by which obfuscator."),
+ "C06": ("exploration", "runtime monitoring: build histories over one shared cache compared step by step with fresh-cache reference builds; hook-counted compile actions on unchanged rebuilds",
+  "Histories of garble builds (15-config alphabet: flags, seeds, GOGARBLE scopes, control flow, tags, -ldflags=-X with and without -literals; edits: comment, leaf body, main body, new file) run over one GOCACHE/GARBLE_CACHE; after every step sha256 and stdout must equal a reference build of the same config and source version from a cache that never saw the program; every second step is repeated unchanged and must run zero compile/asm actions.",
+  "References reuse an obfuscated std closure for their config; sha256 equality relies on reproducibility (C03)."),
  "C08": ("exploration", "runtime monitoring: differential execution of generated reflection programs, repeated re-obfuscation as schedule (map-order) sampling; in-process differential test of the injected replacer",
   "Generated programs send fresh struct types of 8 shapes along 19 flow paths to reflecting sinks (TypeOf/ValueOf walks, json, fmt, FieldByName); each program is re-obfuscated R times with fresh action IDs and map orders and every case line must equal the regular build's line in all R builds. The replacer injected into binaries is compared with strings.NewReplacer on generated pair tables.",
   "Package qualifiers are stripped (not promised); two flow classes are listed known findings (fmt verbs, package-level any variable)."),
@@ -51,6 +54,9 @@ CHECKS = {
  "C16": ("exploration", "runtime monitoring: in-process oracle over generated inputs + hook event stream of real builds",
   "The tree's own naming function is executed in-process on 10^5 (quick) to 4*10^6 (thorough) generated (salt, seed, name) triples and every name garble produces during real garble-cold builds (std + program, ~9*10^4 applications per build) is taken from a hook stream; each output is checked for well-formedness, export preservation, purity and per-salt distinctness.",
   "Inputs are PRNG-generated, not exhaustive; clash classification trusts an independent sha256 recomputation."),
+ "C19": ("exploration", "runtime monitoring: before/after snapshots (mode, size, sha256) of the source tree, the -debugdir target and a private TMPDIR around every command; file-set comparison of -debugdir output with go list",
+  "22 (quick) to 29 (thorough) command/outcome combinations (build, test, run, reverse, map x success, list error, type error, dependency compile error, link error, failing test, program exit status, bad flags, GOGARBLE matching nothing) run in a tree containing unrelated files with a private TMPDIR; the tree must be byte-identical afterwards, no garble temp entries may remain, foreign -debugdir targets (files, subdirectories, regular file, symlink) must be refused and untouched, and an owned -debugdir must hold source and garbled files for every file go list reports on cold, warm and partially deleted caches.",
+  "Only commands that exit are judged (kills: C18); go's own go-build* directories are not garble's."),
  "C20": ("exploration", "runtime monitoring: process-boundary observation (argv of spawned commands via a stub go) + in-process differential oracle",
   "garble is run on generated argument vectors with a recording stub `go` first on PATH; the argv of the go list and go build/test/run commands it spawns is compared with a reference splitter whose boolean/valued table is probed from the real go command at run time. The tree's own splitter functions are additionally run in-process on 2*10^4 (quick) to 10^6 (thorough) vectors.",
   "Flags-before-packages vectors only; the stub answers go list from a canned listing, so flag values are never validated by the real go."),
